@@ -298,14 +298,13 @@ Perturb(c, k) ==
     [] k = <<"agg", 0, "signature">> -> [c EXCEPT !.f[k] = "forged"]
     [] OTHER                -> [c EXCEPT !.f[k] = PV(c.f[k])]
 
-(* swapping two imported exits: position i gets the fields of position 3 - i *)
+(* swapping two imported exits: position i gets the fields of position 3 - i.  (A swap of two equal elements would change
+   nothing; the generated pairs always differ: RotE / RotI move every class.) *)
 SwapImps(c) ==
   LET kk == [i \in 1..2 |-> c.kinds[3 - i]]
       keys == { x \in DOMAIN c.f : x[1] # "imp" } \cup { <<"imp", 3 - x[2], x[3]>> : x \in { y \in DOMAIN c.f : y[1] = "imp" } }
   IN [ne |-> c.ne, kinds |-> kk, f |-> [x \in keys |-> IF x[1] = "imp" THEN c.f[<<"imp", 3 - x[2], x[3]>>] ELSE c.f[x]]]
 P(c, k) == IF k[3] = "order_imps" THEN SwapImps(c) ELSE Perturb(c, k)
-
-(* a swap of two equal elements changes nothing; the generated pairs always differ (RotE / RotI move every class) *)
 
 (* changing any covered field changes the commitment (resp. the identity), and the matrix is exact: a field it lists as
    not covered does not enter.  (One operator, so that TLC evaluates the re-assembled certificate once per state.) *)
